@@ -59,7 +59,7 @@ func (e *Enc) staticWrites(fn *ssa.Function, blocks map[*ssa.BasicBlock]bool, w 
 				w.add(mv, e.comps[mv])
 			case *ssa.Alloc:
 				elem := in.Type().(*types.Pointer).Elem()
-				if !in.Heap {
+				if privateAlloc(in) {
 					w.add(localComp("", in), e.sortOf(elem))
 				} else {
 					e.wholeComps(elem, w)
@@ -145,7 +145,7 @@ func (e *Enc) addrComps(addr ssa.Value, w *writeSet) {
 		w.add(globalCompName(a), e.sortOf(elem))
 	case *ssa.Alloc:
 		elem := a.Type().(*types.Pointer).Elem()
-		if !a.Heap {
+		if privateAlloc(a) {
 			w.add(localComp("", a), e.sortOf(elem))
 			return
 		}
